@@ -293,6 +293,9 @@ func (P *Program) Callers(fn *ssa.Function) []ssa.CallInstruction {
 	if P.callers == nil {
 		P.callers = map[*ssa.Function][]ssa.CallInstruction{}
 		for _, f := range P.ModFuncs {
+			if f.Synthetic != "" && f.Synthetic != "range-over-func yield" {
+				continue // wrappers / thunks synthesised by go/ssa are not source call sites
+			}
 			allInstrs(f, func(b *ssa.BasicBlock, ins ssa.Instruction) {
 				if ci, ok := ins.(ssa.CallInstruction); ok {
 					if callee := ci.Common().StaticCallee(); callee != nil {
